@@ -223,20 +223,20 @@ func NewHttpFileSystemLoader(httpfs http.FileSystem, baseDir string) (*HttpFiles
 // the root of the http.FileSystem.
 func (h *HttpFilesystemLoader) Abs(base, name string) string {
 	if base == "" || strings.HasPrefix(name, "/") {
-		return name
+		// (cleaned like the names resolved relative to a template: an http.FileSystem
+		// over an fs.FS rejects "/d/../x.html" although x.html exists)
+		return path.Clean(name)
 	}
 	return path.Join(path.Dir(base), name)
 }
 
 // Get returns an io.Reader where the template's content can be read from.
-func (h *HttpFilesystemLoader) Get(path string) (io.Reader, error) {
-	fullPath := path
+func (h *HttpFilesystemLoader) Get(name string) (io.Reader, error) {
+	fullPath := name
 	if h.baseDir != "" {
-		fullPath = fmt.Sprintf(
-			"%s/%s",
-			h.baseDir,
-			fullPath,
-		)
+		// (joined, not pasted together: for a rooted name "base" + "/" + "/x.html" is
+		// "base//x.html", which an http.FileSystem over an fs.FS rejects)
+		fullPath = path.Join(h.baseDir, name)
 	}
 
 	return h.fs.Open(fullPath)
